@@ -52,8 +52,8 @@ Tokens(p) ==
   \cup (IF p.qq = QQ_75K0 THEN {T_XAQ} ELSE {})
   \cup (IF p.qq = QQ_SQCONST THEN {T_HQ, T_XQ} ELSE {})
 
-Labs == IF Rich THEN {<<>>, <<108, 98>>, <<76, 95, 49>>} ELSE {<<>>, <<76, 95, 49>>}          \* none, lb, L_1
-Ops  == IF Rich THEN {<<109, 111, 118>>, <<68, 98>>} ELSE {<<109, 79, 118>>}   \* mov, Db / mOv
+Labs == {<<>>, <<76, 95, 49>>}                       \* none, L_1
+Ops  == {<<109, 79, 118>>}                           \* mOv
 Attrs(p) == IF p.hasattrs THEN {<<>>, <<98>>} \cup (IF COLON \in {p.attrchars[k] : k \in 1..Len(p.attrchars)} THEN {<<119, 58, 103>>} ELSE {}) ELSE {<<>>}
 
 RECURSIVE SeqsUpTo(_, _)
@@ -77,7 +77,7 @@ Choices(p, l) ==
      s1 \in (IF l.lab = <<>> THEN {<<>>} ELSE WS0), s2 \in (IF l.args = <<>> THEN {<<SPC>>} ELSE WS1),
      pr \in (IF Len(l.args) < 2 THEN {<<>>} ELSE {<<>>, <<SPC>>, <<TAB>>}), po \in (IF Len(l.args) < 2 THEN {<<>>} ELSE WS0),
      dt \in (IF p.div[1] = SPC /\ Len(l.args) > 1 THEN BOOLEAN ELSE {FALSE}),
-     tr \in {<<>>, <<TAB>>}, cm \in Cmts(p), eo \in Eols, ca \in {"keep", "upper", "lower", "swap"}}
+     tr \in {<<>>, <<TAB>>}, cm \in Cmts(p), eo \in Eols, ca \in {"keep", "upper", "lower", "swap", "alt"}}
 
 \* what the manual requires of a spelling (everything else is free):
 Allowed(p, l, ch) ==
@@ -99,7 +99,7 @@ Sep1s(l)  == IF l.lab = <<>> THEN {<<>>} ELSE WS0
 Pres(l)   == IF Len(l.args) < 2 THEN {<<>>} ELSE {<<>>, <<SPC>>, <<TAB>>}
 Posts(l)  == IF Len(l.args) < 2 THEN {<<>>} ELSE WS0
 Sep2s(l)  == IF l.args = <<>> THEN {<<SPC>>} ELSE WS1
-Cases     == {"keep", "upper", "lower", "swap"}
+Cases     == IF Rich THEN {"keep", "upper", "lower", "swap", "alt"} ELSE {"keep", "upper", "swap", "alt"}
 Trails    == {<<>>, <<TAB>>}
 Star(p, l) ==
   LET k == Canon0(l) IN
